@@ -827,8 +827,8 @@ pub fn run_stream_pair(run: u64, seed: u64) -> RunOut {
         let (a_to_b_w, a_to_b_r) = tokio::io::duplex(pipe_buf);
         let (b_to_a_w, b_to_a_r) = tokio::io::duplex(pipe_buf);
         let (ca, cb) = (cfg_a.clone(), cfg_b.clone());
-        let ta = crate::sched::spawn(async move { remoc::Connect::io::<_, _, u64, u64, remoc::codec::Default>(ca, b_to_a_r, a_to_b_w).await });
-        let tb = crate::sched::spawn(async move { remoc::Connect::io::<_, _, u64, u64, remoc::codec::Default>(cb, a_to_b_r, b_to_a_w).await });
+        let ta = crate::sched::spawn(async move { remoc::Connect::io::<_, _, Vec<u8>, Vec<u8>, remoc::codec::Default>(ca, b_to_a_r, a_to_b_w).await });
+        let tb = crate::sched::spawn(async move { remoc::Connect::io::<_, _, Vec<u8>, Vec<u8>, remoc::codec::Default>(cb, a_to_b_r, b_to_a_w).await });
         let r = or_quiescent(async {
             let (x, y) = tokio::join!(ta, tb);
             (x.unwrap(), y.unwrap())
@@ -838,9 +838,17 @@ pub fn run_stream_pair(run: u64, seed: u64) -> RunOut {
             Some((Ok((conn_a, mut tx_a, mut rx_a)), Ok((conn_b, mut tx_b, mut rx_b)))) => {
                 crate::sched::spawn(conn_a);
                 crate::sched::spawn(conn_b);
+                // values around and above both chunk sizes in both directions: frames are sized by the chunk size the
+                // *receiving* endpoint announced, whatever the sending endpoint's own limit is
+                let lens = [8usize, cfg_a.chunk_size as usize + 1, cfg_b.chunk_size as usize + 1, 3 * cfg_a.chunk_size.max(cfg_b.chunk_size) as usize + 5];
                 let xfer = crate::sched::spawn(async move {
-                    let (s1, s2, r1, r2) = tokio::join!(tx_a.send(0x0102_0304_0506_0708), tx_b.send(42), rx_b.recv(), rx_a.recv());
-                    s1.is_ok() && s2.is_ok() && matches!(r1, Ok(Some(0x0102_0304_0506_0708))) && matches!(r2, Ok(Some(42)))
+                    let mut ok = true;
+                    for (i, len) in lens.iter().enumerate() {
+                        let (va, vb) = (crate::rng::payload(100 + i as u64, *len), crate::rng::payload(200 + i as u64, *len));
+                        let (s1, s2, r1, r2) = tokio::join!(tx_a.send(va.clone()), tx_b.send(vb.clone()), rx_b.recv(), rx_a.recv());
+                        ok &= s1.is_ok() && s2.is_ok() && matches!(r1, Ok(Some(v)) if v == va) && matches!(r2, Ok(Some(v)) if v == vb);
+                    }
+                    ok
                 });
                 let ok = or_quiescent(xfer).await.map(|r| r.unwrap_or(false));
                 if ok == Some(true) {
